@@ -75,6 +75,9 @@ pub enum DKind {
     Chain,
 }
 
+/// descriptor ids from here on denote re-entrant descriptors (they call parse_expression + describe themselves)
+pub const REENTRANT_DESC: usize = 1000;
+
 pub const DKINDS: [DKind; 9] = [
     DKind::Unary,
     DKind::Binary,
@@ -150,6 +153,18 @@ pub struct Fault {
     pub task: usize,
     pub k: usize,
     pub kind: FaultKind,
+    /// 0: only invocation k fails; n > 0: invocations k, k+n, k+2n, ... fail (fault storms)
+    #[serde(default)]
+    pub every: usize,
+}
+
+impl Fault {
+    pub fn once(task: usize, k: usize, kind: FaultKind) -> Fault {
+        Fault { task, k, kind, every: 0 }
+    }
+    pub fn hits(&self, task: usize, k: usize) -> bool {
+        self.task == task && (k == self.k || (self.every > 0 && k > self.k && (k - self.k) % self.every == 0))
+    }
 }
 
 #[derive(Clone, PartialEq, Eq, Hash, Debug, Serialize, Deserialize)]
